@@ -184,9 +184,19 @@ func runC18(e *Env) {
 		if ctOverride != "" {
 			ctype = ctOverride
 		}
-		for _, via := range []string{"binding.Auto", "Context.Bind", "Context.AutoBind", "binding.Bind"} {
+		for vi, via := range []string{"binding.Auto", "Context.Bind", "Context.AutoBind", "binding.Bind", "binding.Auto", "Context.Bind"} {
 			req := NewReqBody(method, "/p", ctype, body)
 			req.URL.RawQuery = "name=Q&age=3&extra=only-in-query"
+			if vi >= 4 {
+				if ct.Kind == "form" || ct.Kind == "multipart" {
+					continue
+				}
+				// something before the binder (a CSRF or logging middleware) has asked net/http for a form
+				// value: that parses the query, leaves a non-form body alone and must not change the source
+				_ = req.FormValue("_csrf")
+				via += " after Request.FormValue"
+				t.Count("decision.preparsed", 1)
+			}
 			var got struct {
 				Name  string `form:"name" query:"name" json:"name" xml:"name"`
 				Age   int    `form:"age" query:"age" json:"age" xml:"age"`
@@ -194,15 +204,15 @@ func runC18(e *Env) {
 			}
 			var err error
 			pv, panicked := catch(func() {
-				switch via {
-				case "binding.Auto":
+				switch {
+				case strings.HasPrefix(via, "binding.Auto"):
 					err = binding.Auto(req, &got)
-				case "binding.Bind":
+				case via == "binding.Bind":
 					err = binding.Bind(req, &got)
 				default:
 					c := &rux.Context{}
 					c.Init(NewRec(), req)
-					if via == "Context.Bind" {
+					if strings.HasPrefix(via, "Context.Bind") {
 						err = c.Bind(&got)
 					} else {
 						err = c.AutoBind(&got)
